@@ -3,7 +3,7 @@
 //! `created - destroyed - forgotten` must equal the number of elements the matrix / array holds,
 //! and the flat slice views must have one entry per element.
 
-use crate::exec::guard_nopanic;
+use crate::exec::{guard, guard_nopanic, Thrown};
 use crate::ops::*;
 use crate::tok::{self, *};
 use crate::zexec::{conserve, counts, ZDrop};
@@ -19,7 +19,7 @@ pub trait ZMat {
 }
 
 macro_rules! zmat {
-    ($Z:ident, $n:expr, $nn:expr, $Mat:ident, [$($nm:ident)+]) => {
+    ($Z:ident, $n:expr, $nn:expr, $Mat:ident, [$($nm:ident)+], [$V0:ident $V1:ident]) => {
         pub enum $Z {
             Flat([ZDrop; $nn]),
             Nested([[ZDrop; $n]; $n]),
@@ -128,6 +128,137 @@ macro_rules! zmat {
                         }
                         (Some($Z::CM(m)), true)
                     }
+                    // ---- operations that run user code (closures: fault kind F7) or move elements around ----
+                    (MMapRows, c @ $Z::RM(_)) | (MMapRows, c @ $Z::CM(_)) => {
+                        let mode = op.a % 3;
+                        let pa = op.f;
+                        let other: Option<$Z> = if mode == 2 {
+                            let f: [ZDrop; $nn] = std::array::from_fn(|_| ZDrop::new());
+                            let [$($nm),+] = f;
+                            Some(if matches!(c, $Z::CM(_)) { $Z::CM(CM::new($($nm),+)) } else { $Z::RM(RM::new($($nm),+)) })
+                        } else {
+                            None
+                        };
+                        let mut fired = false;
+                        let r = {
+                            let fired = &mut fired;
+                            guard(0, 0, None, move || {
+                                let mut calls = 0u32;
+                                let mut tick = move || {
+                                    calls += 1;
+                                    if pa != 0 && calls == pa {
+                                        *fired = true;
+                                        tok::note(EV_INJECT, 7000 + calls as u64);
+                                        std::panic::panic_any(Injected);
+                                    }
+                                };
+                                match (c, other) {
+                                    ($Z::RM(m), Some($Z::RM(o))) => $Z::RM(m.map2(o, |t, u| {
+                                        tick();
+                                        drop(u);
+                                        t
+                                    })),
+                                    ($Z::CM(m), Some($Z::CM(o))) => $Z::CM(m.map2(o, |t, u| {
+                                        tick();
+                                        drop(u);
+                                        t
+                                    })),
+                                    ($Z::RM(m), _) => $Z::RM(if mode == 1 {
+                                        m.map(|t| {
+                                            tick();
+                                            t
+                                        })
+                                    } else {
+                                        m.map_rows(|l| {
+                                            tick();
+                                            l
+                                        })
+                                    }),
+                                    ($Z::CM(m), _) => $Z::CM(if mode == 1 {
+                                        m.map(|t| {
+                                            tick();
+                                            t
+                                        })
+                                    } else {
+                                        m.map_cols(|l| {
+                                            tick();
+                                            l
+                                        })
+                                    }),
+                                    _ => unreachable!(),
+                                }
+                            })
+                            .0
+                        };
+                        match r {
+                            Ok(f) => (Some(f), true),
+                            Err(Thrown::Injected) if fired => (None, true),
+                            Err(Thrown::Injected) => {
+                                tok::raise(V10_UNEXPECTED_PANIC, "zero-sized elements: map / map2 / map_rows / map_cols: an injected panic surfaced where none was planned (harness)".to_string());
+                                (None, true)
+                            }
+                            Err(Thrown::Genuine(msg)) => {
+                                tok::raise(V10_UNEXPECTED_PANIC, format!("zero-sized elements: map / map2 / map_rows / map_cols panicked: {}", msg));
+                                (None, true)
+                            }
+                        }
+                    }
+                    (MClone, $Z::RM(m)) => {
+                        let _ = guard_nopanic("clone of a matrix", 0, 0, || drop(m.clone()));
+                        (Some($Z::RM(m)), true)
+                    }
+                    (MClone, $Z::CM(m)) => {
+                        let _ = guard_nopanic("clone of a matrix", 0, 0, || drop(m.clone()));
+                        (Some($Z::CM(m)), true)
+                    }
+                    (MDiagonal, $Z::RM(m)) => {
+                        let _ = guard_nopanic("diagonal()", 0, 0, move || drop(m.diagonal()));
+                        (None, true)
+                    }
+                    (MDiagonal, $Z::CM(m)) => {
+                        let _ = guard_nopanic("diagonal()", 0, 0, move || drop(m.diagonal()));
+                        (None, true)
+                    }
+                    (MArith, $Z::RM(m)) if op.a % 5 != 2 => (
+                        guard_nopanic("matrix arithmetic / size conversions", 0, 0, move || {
+                            $Z::RM(match op.a % 5 {
+                                0 => {
+                                    let f: [ZDrop; $nn] = std::array::from_fn(|_| ZDrop::new());
+                                    let [$($nm),+] = f;
+                                    m + RM::new($($nm),+)
+                                }
+                                1 => -m,
+                                3 => RM::from(vek::mat::repr_c::row_major::$V0::<ZDrop>::from(m)),
+                                _ => RM::from(vek::mat::repr_c::row_major::$V1::<ZDrop>::from(m)),
+                            })
+                        }),
+                        true,
+                    ),
+                    (MArith, $Z::CM(m)) if op.a % 5 != 2 => (
+                        guard_nopanic("matrix arithmetic / size conversions", 0, 0, move || {
+                            $Z::CM(match op.a % 5 {
+                                0 => {
+                                    let f: [ZDrop; $nn] = std::array::from_fn(|_| ZDrop::new());
+                                    let [$($nm),+] = f;
+                                    m + CM::new($($nm),+)
+                                }
+                                1 => -m,
+                                3 => CM::from(vek::mat::repr_c::column_major::$V0::<ZDrop>::from(m)),
+                                _ => CM::from(vek::mat::repr_c::column_major::$V1::<ZDrop>::from(m)),
+                            })
+                        }),
+                        true,
+                    ),
+                    (MArith, other) if op.a % 5 == 2 => {
+                        let _ = guard_nopanic("Mat::default()", 0, 0, move || {
+                            if home_cm {
+                                drop(CM::default())
+                            } else {
+                                drop(RM::default())
+                            }
+                        });
+                        (Some(other), true)
+                    }
                     (_, other) => (Some(other), false),
                 };
                 if let Some(f) = next {
@@ -139,9 +270,9 @@ macro_rules! zmat {
     };
 }
 
-zmat!(ZM2, 2, 4, Mat2, [m0 m1 m2 m3]);
-zmat!(ZM3, 3, 9, Mat3, [m0 m1 m2 m3 m4 m5 m6 m7 m8]);
-zmat!(ZM4, 4, 16, Mat4, [m0 m1 m2 m3 m4 m5 m6 m7 m8 m9 m10 m11 m12 m13 m14 m15]);
+zmat!(ZM2, 2, 4, Mat2, [m0 m1 m2 m3], [Mat3 Mat4]);
+zmat!(ZM3, 3, 9, Mat3, [m0 m1 m2 m3 m4 m5 m6 m7 m8], [Mat4 Mat2]);
+zmat!(ZM4, 4, 16, Mat4, [m0 m1 m2 m3 m4 m5 m6 m7 m8 m9 m10 m11 m12 m13 m14 m15], [Mat3 Mat2]);
 
 /// Interpret the matrix part of a plan (up to `MTakeLines`) on zero-sized elements.
 pub fn run<Z: ZMat>(mut z: Z, home_cm: bool, ops: &[Op], mut on_step: impl FnMut(usize, Op, bool)) {
